@@ -10,7 +10,8 @@ Used only to look for a concrete failing input on the real implementation and to
 model's premises; it is not part of any theorem.
 
 Operations are the parsed tuples of harness/c10.py:
-  ("newL", n) ("newP", n) ("addParams", h, k) ("addGate", h, gate) ("addPar", h, pk, ts, ids, ang)
+  ("newL", n) ("newP", n) ("addParams", h, k) ("addGate", h, gate) ("insGate", h, index, gate)
+  ("addPar", h, pk, ts, ids, ang)
   ("extend", h, src) ("plus", h, src) ("rplus", src, h)
   ang = ("P", ref) | ("F", [(ref, coef)]) | None ; ref = "C" | (j, i)
   src = ("h", j) | ("L", gates) | ("Q", n, gates)
@@ -79,6 +80,15 @@ class Ref:
             return new
         if t == "addGate":
             self._add_fixed(self.circs[op[1]], op[2])
+            return []
+        if t == "insGate":
+            # add_gate(gate, gate_index): the gate is placed at position gate_index of the gate list (0 ≤ index ≤ length)
+            c = self.circs[op[1]]
+            if any(q >= c.n for q in gate_qubits(op[3])):
+                raise RefError("index")
+            if not 0 <= op[2] <= len(c.gates):
+                raise RefError("gate position")
+            c.gates.insert(op[2], ("f", op[3]))
             return []
         if t == "addPar":
             _, h, pk, ts, ids, ang = op
